@@ -238,3 +238,17 @@ Example c07_example_macro_docs :
    run_names (d true) = [bs "op"; bs "api_count"] /\ run_names (d false) = [bs "api_op"; bs "api_count"]
    /\ spec_names (d true) = run_names (d true) /\ spec_names (d false) = run_names (d false)).
 Proof. vm_compute. repeat split. Qed.
+
+(* satisfiable premises: a tree with sample groups below an un-prefixed flatten is [sg_safe] (and the code as it
+   is reports them); with a prefixed flatten it is not; hand-written entries with short names are [raw_short] *)
+Example c07_example_premises :
+  let child := EStruct Snake None (FCons (bs "OpName") (KField None None true (LStr (bs "Get"))) FNil) in
+  let raw := KFlattenEntry [(bs "custom", VString (bs "x"))] [(bs "grp", bs "y")] in
+  let safe := EStruct Pascal None (FCons (bs "c") (KFlatten None OptSome child) (FCons (bs "r") raw FNil)) in
+  let unsafe := EStruct Pascal None (FCons (bs "c") (KFlatten (Some (PInfl (bs "up"))) OptSome child) FNil) in
+  sg_safe safe = true /\ raw_short safe = true /\ units_ok to_pascal_case to_snake_case to_kebab_case safe = true /\
+  root_sg to_pascal_case to_snake_case to_kebab_case true false true safe = [(bs "op_name", bs "Get"); (bs "grp", bs "y")] /\
+  sg_safe unsafe = false /\
+  root_sg to_pascal_case to_snake_case to_kebab_case true false true unsafe = [(bs "op_name", bs "Get")] /\
+  spec_groups to_pascal_case to_snake_case to_kebab_case unsafe = [(bs "Upop_name", bs "Get")].
+Proof. vm_compute. repeat split. Qed.
